@@ -18,9 +18,19 @@ def _class_info(spec, cls_idx_line):
     return cls_idx_line
 
 
+def substring_ids(spec):
+    """worker ids of which one is a substring of another (net1 / net11): the code identifies a worker's copies by
+    `worker.id in name`, so a worker then acts on another worker's copies (finding F4) - outside the model's hypothesis
+    that a copy is cared for by one worker; such cases are judged by the monitors only"""
+    ids = [w["id"].split(".")[-1] for w in spec["workers"]] + [w["id"] for w in spec["workers"]]
+    return any(a != b and a in b for a in ids for b in ids if not b.endswith("." + a))
+
+
 def classify(monitor, item, spec, res):
     """stable key of a monitor violation: <monitor>[:<feature>...] — features name the call site / input class"""
     cfg = spec["cfg"]
+    if substring_ids(spec):
+        return monitor + ":worker-id-substring-of-another"
     feats = []
     cls = None
     parts = item.split("/")
@@ -183,7 +193,9 @@ def judge(ctx, results, monitors, label="trav"):
         if r["kinds"].get("raise"):
             ctx.count("runs-with-raise")
         ctx.count("executions", r["n_exec"])
-        if r["disagree"]:
+        if r["disagree"] and substring_ids(spec):
+            ctx.count("model-comparison-skipped:worker-id-substring-of-another")
+        elif r["disagree"]:
             ctx.disagree(f"trace#{r['ident']}:block{r['disagree']['block']}", {"spec": spec, "ident": list(r["ident"])},
                          r["disagree"]["model"], r["disagree"]["impl"])
         for m in monitors:
